@@ -3,6 +3,4 @@
 
 package utils
 
-import "time"
-
-func verifNow(t time.Time) time.Time { return t }
+func verifNanos(n int64) int64 { return n }
